@@ -604,6 +604,8 @@ pub fn run(args: &Args) -> i32 {
     let cs = cases(args.tier.is_thorough(), flight_len, flight_len_ip);
     let threads = crate::evidence::n_threads();
     let results = crate::evidence::par_map(cs.len(), threads, |i| {
+        let c = cs[i].clone();
+        let _g = crate::evidence::watchdog::enter(move || json!({"engine":"schedmc-c12","uri":c.uri(),"scheme":c.scheme,"host":c.host,"port":c.port,"peer":format!("{:?}", c.peer),"peer_spec":peer_json(&c.peer),"client_alpn":c.client_alpn,"via_client":c.via_client,"io":{"corrupt":c.io.corrupt.map(|(a,m)| vec![a as u64, m as u64]),"frag":c.io.frag,"bufsize":c.io.bufsize}}));
         let o = run_case(&cs[i], &fx);
         let v = check(&cs[i], &o);
         (o, v)
